@@ -1,7 +1,7 @@
 (* C09 - Path hashes distinguish every difference in a file tree.
    This file holds only the statement, the property theorems and their non-vacuity examples.
    H is the hash (sha1, sha256, ...): any collision-free function on byte strings. *)
-From PlzV Require Import Base.Harness Model.C09 Proof.C09 Proof.C09_Top Proof.C09_Memo.
+From PlzV Require Import Base.Harness Model.C09 Proof.C09 Proof.C09_Top Proof.C09_Memo Model.C09_Rec Proof.C09_Rec.
 
 (* Two different trees (contents, names, positions, link targets, kinds: `a <> b` on canonical
    presentations covers every item the statement lists) never get the same recorded hash. *)
@@ -76,6 +76,57 @@ Theorem C09_memo :
 Proof. exact memo_sound. Qed.
 Print Assumptions C09_memo.
 
+(* Follow-up 2.  The hash RECORDED for a path over the life of a checkout: any sequence of file-system
+   changes (new files, IN-PLACE edits that keep the inode and its xattrs, removals, mv, cp -a, entries that
+   cannot be read and their repair), any number of plz processes (each a new PathHasher, xattrs on or off)
+   and Hash calls, from the empty world.  Protocol (`rfollows`): Hash(p, recalc=false) is not called while
+   the memo entry of p is stale (content changed under it in this process), nor - for an OUTPUT under
+   plz-out/, xattrs on, not yet hashed by this process - while its stored xattr is stale (edited in place
+   after the hash was stored).  Then
+   (a) every Hash returns the stream of the tree at the path at that moment, or fails exactly when the
+       path is missing (RMissing) / holds an entry that cannot be read (RErr); a failed hash is never
+       recorded; every memo entry and stored xattr the protocol vouches for is right at the end;
+   (b) with NO premise on the history or the state: a Hash that recalculates, and the first Hash a process
+       makes of a path OUTSIDE plz-out/, answer for the tree that is there - no stored xattr is believed
+       on a source, whatever it used to be;
+   (c) a readable tree is hashed as `stream` (so clauses 1-6 of C09_partial apply to the recorded hash);
+       a tree with an unreadable entry never yields a value. *)
+Theorem C09_recorded :
+  (forall root ops, rfollows root rstate0 rghost0 ops = true ->
+     Forall (rentry_ok root) (rexec root rstate0 rghost0 ops)
+     /\ RInv (fst (rrun root rstate0 rghost0 ops)) (snd (rrun root rstate0 rghost0 ops)))
+  /\ (forall root st p recalc store,
+        recalc = true
+        \/ (aget (rmemo st) (ensure_relative root p) = None
+            /\ has_prefix outputs_prefix (ensure_relative root p) = false) ->
+        answer_at (rfiles (fst (rstep root st (RHash p recalc store)))) (ensure_relative root p)
+                  (snd (rstep root st (RHash p recalc store)))
+        /\ forall k, option_map fst (aget (rfiles (fst (rstep root st (RHash p recalc store)))) k)
+                     = option_map fst (aget (rfiles st) k))
+  /\ (forall root st p recalc store w,
+        snd (rstep root st (RHash p recalc store)) = RErr w ->
+        rmemo (fst (rstep root st (RHash p recalc store))) = rmemo st)
+  /\ (forall t n, to_node t = Some n -> fstream t = (stream n, true))
+  /\ (forall t, to_node t = None -> snd (fstream t) = false).
+Proof.
+  exact (conj rec_sound (conj fresh_hash_sound (conj failed_hash_not_recorded
+        (conj fstream_readable fstream_unreadable)))).
+Qed.
+Print Assumptions C09_recorded.
+
+(* Any number of Hash calls on DIFFERENT paths running at once through one PathHasher, interleaved in ANY
+   order at the granularity of the single file Read / hash Write of fileHash, starting from any content of
+   whatever buffer is shared: what a call has written is always a prefix of, and when it finishes equal to,
+   the stream the sequential call writes.  (Proved from file_copy_buffer = BufPrivate as regenerated from
+   fileHash; the memo itself is only touched under hasher.mutex.) *)
+Theorem C09_concurrent :
+  forall ns sched sh i n t,
+    nth_error ns i = Some n ->
+    nth_error (threads (crun sched (CState (map thread0 ns) sh))) i = Some t ->
+    (exists rest, acc t ++ rest = stream n) /\ (finished t = true -> acc t = stream n).
+Proof. exact conc_sound. Qed.
+Print Assumptions C09_concurrent.
+
 (* ---- non-vacuity ---- *)
 (* the refutation has a witness in every class, not only the one used above *)
 Example C09_refuted_witnesses :
@@ -140,3 +191,28 @@ Example C09_memo_nonvacuous :
       /\ map (fun e => snd (fst (fst e))) (exec (s "/r") mstate0 [] stale_demo)
          = [ObsNone; ObsVal (s "v1") true; ObsNone; ObsVal (s "v1") false]).
 Proof. exact (conj move_output_twice_ok protocol_needed). Qed.
+
+(* C09_recorded: the two seeded histories are inside the protocol and answered for the current tree - a
+   directory whose hash failed on an unreadable entry, repaired, hashed again by the same process; an output
+   whose hash was stored as an xattr, moved into the sources, edited in place, hashed by a new process (the
+   stale xattr is still on the file) - and the premise about outputs cannot be dropped *)
+Example C09_recorded_nonvacuous :
+  (rfollows (s "/r") rstate0 rghost0 fault_repair_demo = true
+   /\ map (fun e => snd (fst (fst e))) (rexec (s "/r") rstate0 rghost0 fault_repair_demo)
+      = [RNone; RNone; RErr (s "aaa"); RNone; RVal (s "aaabbb") true])
+  /\ (rfollows (s "/r") rstate0 rghost0 output_becomes_source_demo = true
+      /\ map (fun e => snd (fst (fst e))) (rexec (s "/r") rstate0 rghost0 output_becomes_source_demo)
+         = [RNone; RNone; RVal (s "one") true; RNone; RNone; RNone; RVal (s "onetwo") true]
+      /\ xattr_of (rfiles (fst (rrun (s "/r") rstate0 rghost0 output_becomes_source_demo))) (s "src/pkg/data.txt")
+         = Some (s "one"))
+  /\ (rfollows (s "/r") rstate0 rghost0 output_edited_in_place_demo = false
+      /\ map (fun e => snd (fst (fst e))) (rexec (s "/r") rstate0 rghost0 output_edited_in_place_demo)
+         = [RNone; RNone; RVal (s "one") true; RNone; RNone; RVal (s "one") false]).
+Proof. exact (conj fault_repair_ok (conj output_becomes_source_ok output_protocol_needed)). Qed.
+
+(* C09_concurrent: three calls, a schedule that interleaves them and runs all of them to the end *)
+Example C09_concurrent_nonvacuous :
+  let ns := [File (s "aaaa"); Dir [(s "k", Link (s "q")); (s "z", File (s "bb"))]; Link (s "t")] in
+  let c := crun [0; 1; 1; 0; 2; 1; 2]%nat (CState (map thread0 ns) []) in
+  forallb finished (threads c) = true /\ map acc (threads c) = map stream ns.
+Proof. exact conc_nonvacuous. Qed.
